@@ -46,7 +46,7 @@ def schema_source_tie(C):
 def correspond(ctx, C):
     st = S.SpecStats()
     broken_tie = schema_source_tie(C)
-    rows = S.run(ctx, C, "speccat", 128, 1280) + S.run(ctx, C, "spec", 256, 4000) + S.run(ctx, C, "specmut", 160, 4000) + S.run(ctx, C, "specfix", 208, 208)
+    rows = S.run(ctx, C, "speccat", 196, 1960) + S.run(ctx, C, "spec", 256, 4000) + S.run(ctx, C, "specmut", 160, 4000) + S.run(ctx, C, "specfix", 208, 208)
     known = {f["switch"]: f for f in S.known_for(C, "C02") if f.get("switch")}
     viol, ties, attributed = [], [], {}
     schema_invalid = 0
